@@ -18,7 +18,7 @@ from dotenv import load_dotenv
 from flask import Flask, make_response, request, Response  # type: ignore
 from flask_login import LoginManager
 from flask_socketio import SocketIO
-from werkzeug.routing import BaseConverter, Map  # type: ignore
+from werkzeug.routing import BaseConverter, IntegerConverter, Map, ValidationError  # type: ignore
 from werkzeug.middleware.proxy_fix import ProxyFix
 from flask_jwt_extended import JWTManager
 from netifaces import interfaces, ifaddresses, AF_INET
@@ -49,6 +49,20 @@ class RegexConverter(BaseConverter):
     def __init__(self, url_map: Map, *items) -> None:
         super().__init__(url_map)
         self.regex = items[0]
+
+class BoundedIntegerConverter(IntegerConverter):
+    """
+    An integer in a route path. Python refuses to convert a number with more
+    than sys.get_int_max_str_digits() digits (ValueError): such a path does
+    not match the route (404), rather than failing the request (500)
+    """
+    def to_python(self, value: str) -> int:
+        try:
+            return super().to_python(value)
+        except ValidationError:
+            raise
+        except ValueError as err:
+            raise ValidationError() from err
 
 def no_api_cache(response: Response) -> Response:
     """
@@ -86,6 +100,7 @@ def add_a_route(app: Flask, name: str, route: Route):
 
 def add_routes(app: Flask) -> None:
     app.url_map.converters['regex'] = RegexConverter
+    app.url_map.converters['int'] = BoundedIntegerConverter
     app.after_request(no_api_cache)
     app.before_request(json_body_is_an_object)
     for name, route in routes.items():
